@@ -338,6 +338,9 @@ void vh_violation(const char *site, const char *fmt, ...)
     out_line("V", key, st, det);
     s->violations++;
     if (__atomic_add_fetch(&SH->nviol, 1, __ATOMIC_RELAXED) >= opt_maxviol * 40 || opt_first) SH->stop = 1;
+    /* a harness loop that keeps reporting must not be able to fill the disk: far beyond any useful number of reports the executor
+     * ends the run (exit 0: everything reported so far stands, no further groups are claimed because stop is set) */
+    if (s->violations > 20000) { SH->stop = 1; fflush(NULL); _exit(0); }
 }
 long vh_violations(void) { return SH ? SH->w[W].violations : 0; }
 void vh_note(const char *fmt, ...)
